@@ -71,7 +71,7 @@ static void deviate(struct phr *p, int pos, int d) {
 }
 
 /* ---- bases */
-#define MAXBASE 40
+#define MAXBASE 60
 static struct { unsigned idx[16]; int li; int prefix; char name[48]; } BASE[MAXBASE]; static int NBASE;
 static void add_base(const unsigned idx[16], int li, int prefix, const char *name) { memcpy(BASE[NBASE].idx, idx, 64); BASE[NBASE].li = li; BASE[NBASE].prefix = prefix; snprintf(BASE[NBASE].name, 48, "%s", name); NBASE++; }
 static void fix_check(unsigned idx[16], unsigned coin) { idx[1] ^= coin; idx[0] = 0; idx[0] = ref_eval(idx); idx[1] ^= coin; }
@@ -82,6 +82,14 @@ static void build_bases(void) {
         if (li & 1) idx[3] |= 1;       /* user feature bit 4: valid under mask 7, unsupported under mask 0 */
         fix_check(idx, 0); char nm[48]; snprintf(nm, sizeof nm, "valid-%s", RL[li].code); add_base(idx, li, 0, nm);
         idx[0] ^= 0x2A5; snprintf(nm, sizeof nm, "badcheck-%s", RL[li].code); add_base(idx, li, 0, nm);
+    }
+    /* a valid phrase per language that carries the longest words of its list (decomposed length) at three positions */
+    for (int li = 0; li < R_NLANG; li++) {
+        unsigned top[3] = { 0, 0, 0 }; size_t tl[3] = { 0, 0, 0 };
+        for (unsigned i = 0; i < R_NW; i++) { size_t l = RL[li].wlen[i]; for (int k = 0; k < 3; k++) if (l > tl[k] || (l == tl[k] && k == 2)) { for (int q = 2; q > k; q--) { tl[q] = tl[q - 1]; top[q] = top[q - 1]; } tl[k] = l; top[k] = i; break; } }
+        unsigned idx[16]; for (int i = 1; i < 16; i++) idx[i] = (unsigned)(prng(&ps) & 2047); idx[2] &= ~1u; idx[3] &= ~1u; idx[4] &= ~1u; idx[5] &= ~1u;
+        idx[6] = top[0]; idx[9] = top[1]; idx[15] = top[2];
+        fix_check(idx, 0); char nm[48]; snprintf(nm, sizeof nm, "longwords-%s", RL[li].code); add_base(idx, li, 0, nm);
     }
     /* tokens shared between lists: for a pair/set of languages collect word indices (in language A) whose token is recognised by all of the set */
     struct { int a; unsigned need; int prefix; const char *name; } SH[] = {
